@@ -26,6 +26,8 @@ def nontrivial(lkeys, rkeys):
 def run_unit(unit):
     if unit[0] == "hist":
         return js.run_hist_unit(unit, ("join", "full_join"))
+    if unit[0] == "big":
+        return js.run_big_unit(unit, ("join", "full_join"))
     kind, nkeys, config, forms, nl, maxr = unit
     agg = Agg()
     h = hashlib.sha256()
@@ -125,6 +127,7 @@ def check(ctx):
     units = js.plan_units(ctx.thorough)
     units += [("hist", k, f) for k in ("int", "str") for f in ("name", "column")]
     units += [("hist", "int", f, "recycle") for f in ("name", "column")]
+    units += [("big", p) for p in range(4)]
     agg = hashseeds.run(ctx, "props.c10", units)
     agg.notes["bound"] = "see joinspace.plan_units"
     agg.notes["exhaustive"] = True
